@@ -90,7 +90,7 @@ def run_case(ctx, case):
                         arr = prev_obj
                     elif not isinstance(prev_obj, list) and not isinstance(arr, list) and \
                             arr.width == prev_obj.width and len(arr) == len(prev_obj) and arr.width:
-                        prev_obj[0:len(arr), 0:arr.width] = [r.ljust(arr.width) if len(r) < arr.width else r
+                        prev_obj[0:len(arr), 0:arr.width] = [r + " " * (arr.width - len(r)) if len(r) < arr.width else r
                                                              for r in arr.rows]
                         arr = prev_obj
                         # what the frame object now holds (FSArray compositing itself is C04's subject)
